@@ -16,7 +16,7 @@ TARGET_PARTS = ('beartype/_conf/confmain.py', 'beartype/_util/cache/map/utilmapu
 PARTIAL_PARTS = ('beartype/_check/code/codemain.py', 'beartype/_check/error/errmain.py')
 POOL_FILES = ('calldatadecorfunc.py', 'utilcachepool.py', 'codemain.py')
 CLAW_FILES = ('clawpkgmain.py', 'clawpkgtrie.py')
-DIRECTED_FILES = {'register_conflict': CLAW_FILES}     # per scenario; the object pools otherwise
+DIRECTED_FILES = {'register_conflict': CLAW_FILES, 'conf': ('confmain.py',)}     # per scenario; the object pools otherwise
 _PARTIAL_LINES = {}
 
 
@@ -184,8 +184,19 @@ def scenario(name, seed):
         from beartype import BeartypeViolationVerbosity as V
         for k in kws:
             k['violation_verbosity'] = V(k['violation_verbosity'])
-        picks = [rng.choice([0, 0, 1]) for _ in range(3)]
-        fns = [(lambda k=kws[p]: BeartypeConf(**k)) for p in picks]
+        picks = [0, 0, rng.choice([0, 0, 1])]     # the first two threads ask for the same new configuration
+
+        def make_and_use(k):
+            # what a caller does with a configuration it has just been handed: read it, print it, hash it, check under it
+            c = BeartypeConf(**k)
+            seen = (c.claw_skip_package_names, c.violation_verbosity, c.is_color, c.strategy, c.hint_overrides, c.violation_type,
+                    c.claw_decor_place_func, c.warning_cls_on_decorator_exception)
+            if c.claw_skip_package_names != k['claw_skip_package_names'] or not repr(c) or hash(c) != hash(c):
+                raise AssertionError('a configuration that does not read back what it was made from: %r' % (seen,))
+            if is_bearable('x', int, conf=c):
+                raise AssertionError('is_bearable under a freshly made configuration accepted a str as an int')
+            return c
+        fns = [(lambda k=kws[p]: make_and_use(k)) for p in picks]
 
         def judge(res):
             out = []
